@@ -209,7 +209,12 @@ def dispatch_cases():
 
     junks = [(5, '5'), (None, 'None'), (object(), 'object()'), (3.5, '3.5'), (True, 'True'),
              (lambda x: dict(x, a=0), 'lambda x'), (unknown_name, 'def f(record)'), (lambda: None, 'lambda: None'),
-             (lambda item, row: None, 'lambda item, row')]
+             (lambda item, row: None, 'lambda item, row'),
+             # iterables that are not row sources: a link whose items are neither dicts nor lists cannot be interpreted as a step;
+             # the same holds when the malformed item comes after well-formed rows (it would be lost otherwise, and the rows with it)
+             ('abc', "'abc'"), ({'a': 1}, "{'a': 1}"), ([1, 2, 3], '[1, 2, 3]'), (b'xy', "b'xy'"), (range(3), 'range(3)'),
+             ([{'a': 1}, 5], "[{'a': 1}, 5]"), ([{'a': 1}, [2]], "[{'a': 1}, [2]]"), ([[1, 2], {'a': 3}], "[[1, 2], {'a': 3}]"),
+             ([{'a': i} for i in range(120)] + [7], '120 rows then 7')]
     for junk, label in junks:
         r = run_guard(lambda: rows_of(junk))
         out.append(dict(kind='junk', flavour=label, ok=r[0] == 'raised', rejected=r[0] == 'raised', got=r[1]))
